@@ -3,7 +3,8 @@ import random
 from ..framework import Check
 from .. import mgr_check, mgr_common as C
 
-THEOREMS = ["C06_unique", "C06_connect", "C06_user_range", "C06_dynamic_fresh", "C06_ex"]
+THEOREMS = ["C06_unique", "C06_connect", "C06_user_range", "C06_dynamic_fresh", "C06_ex",
+            "C06_connect_options_named", "C06_context_options_named"]
 CHECKERS = ["C06", "C03"]
 
 
